@@ -58,6 +58,12 @@ func (e *Exec) lookupIntrinsic(fn *ssa.Function, name string) (intrinsic, bool) 
 	if len(e.cfg.Stubs) > 0 {
 		if target, ok := e.cfg.Stubs[name]; ok {
 			tf := e.harnessPkg.Func(target)
+			if i := strings.LastIndex(target, "."); i > 0 {
+				// a stand-in overlaid into another package: "import/path.func"
+				if p := e.prog.ImportedPackage(target[:i]); p != nil {
+					tf = p.Func(target[i+1:])
+				}
+			}
 			if tf == nil {
 				panic(unsupported("stub target not found: " + target))
 			}
